@@ -26,7 +26,11 @@ pub enum ChildOutcome {
 }
 
 pub fn spawn(prop: &str, spec: &Json, timeout: Duration) -> ChildOutcome {
-    let exe = match std::env::var_os("VP_CHILD_EXE").map(std::path::PathBuf::from).or_else(|| std::env::current_exe().ok()) {
+    spawn_with(prop, spec, None, timeout)
+}
+
+pub fn spawn_with(prop: &str, spec: &Json, exe: Option<std::path::PathBuf>, timeout: Duration) -> ChildOutcome {
+    let exe = match exe.or_else(|| std::env::var_os("VP_CHILD_EXE").map(std::path::PathBuf::from)).or_else(|| std::env::current_exe().ok()) {
         Some(e) => e,
         None => return ChildOutcome::SpawnError("cannot find own executable".into()),
     };
@@ -102,6 +106,13 @@ pub fn run_on_small_stack(f: impl FnOnce() -> Json + Send + 'static) -> i32 {
             101
         }
     }
+}
+
+/// Like [`spawn_all`], with an executable per spec.
+pub fn spawn_all_with(prop: &str, specs: &[Json], exes: &[Option<std::path::PathBuf>], timeout: Duration, par: usize) -> Vec<ChildOutcome> {
+    use rayon::prelude::*;
+    let pool = rayon::ThreadPoolBuilder::new().num_threads(par.max(1)).build().expect("pool");
+    pool.install(|| specs.par_iter().zip(exes.par_iter()).map(|(s, e)| spawn_with(prop, s, e.clone(), timeout)).collect())
 }
 
 /// Run many child specs, `par` at a time, preserving order.
